@@ -483,7 +483,8 @@ class C17(Prop):
                             'place': gen.gen_place(rng, False)})
             elif x < 0.6:
                 ops.append(gen.gen_request(rng, nw, rng.choice(
-                    ['incr', 'decr']), place=gen.gen_place(rng, False)))
+                    ['incr', 'decr', 'incr', 'decr', 'reload', 'restart',
+                     'stop', 'start']), place=gen.gen_place(rng, False)))
             elif x < 0.75:
                 ops.append(gen.gen_death(rng, nw, inflight=False))
             else:
